@@ -84,6 +84,7 @@ BODIES = {
                "s = 'def NAME(x): return lambda: 0  # no'; return len(s) + x + K"),
     "mlstr": (['s = """first', "{U}{U}second", '{U}{U}"""', "return len(s) + x + K"], None),
     "mlstr_col0": (['s = """first', "\0second", '\0"""', "return len(s) + x + K"], None),
+    "mlfstr": (['s = f"""first {x}', "{U}{U}second", '{U}{U}"""', "return len(s) + x + K"], None),
     "fstr": (["return len(f\"{x!r:>4} {'q'} {{}}\") + K"], "return len(f\"{x!r:>4} {'q'} {{}}\") + K"),
     "walrus": (["if (n := x + 1) > 1:", "{U}return n + K", "return K"], None),
     "while": (["i = 0", "while i < x:", "{U}i += 1", "return i + K"], None),
@@ -274,6 +275,10 @@ EMBEDS = {
     "attrcall": ("foo = ns.keep(LAM)", "foo", True),
     "leadcomment": ("# a comment: lambda q: 0\nfoo = LAM", "foo", True),
     "call_ml": ("foo = ident2(\n    LAM,\n    3)", "foo", True),
+    # the subject is the SECOND lambda starting on its line: a function object from such a line cannot be told from
+    # its neighbour by its source position (creation may be refused, it must not silently take the neighbour)
+    "tuple_second": ("tup = (lambda q_: q_ - 1000, LAM)", "tup[1]", False),
+    "dict_second": ("dd = {'a': lambda q_: q_ - 1000, 'k': LAM}", "dd['k']", False),
 }
 LAM_DIMS = {"lsig": list(LSIGS), "lbody": list(LBODIES), "embed": list(EMBEDS), "tail": list(TAILS)}
 LAM_DEFAULT = {d: v[0] for d, v in LAM_DIMS.items()}
@@ -294,9 +299,10 @@ def render_lam(L):
     text = stmt + TAILS[L["tail"]]
     np_ = 0 if sig == "" else (2 if ykind else 1)
     # number of lambdas starting on the same physical line as the subject lambda
-    same_line = L["lbody"] in ("nested_same_line", "nested_tail")
+    second = L["embed"] in ("tuple_second", "dict_second")
+    same_line = L["lbody"] in ("nested_same_line", "nested_tail") and not second
     return {"text": text, "lam": lam, "accessor": acc, "text_ok": text_ok, "nparams": np_,
-            "ykind": ykind, "same_line_lambdas": same_line, "raw": []}
+            "ykind": ykind, "same_line_lambdas": same_line, "second_on_line": second, "raw": []}
 
 
 # --------------------------------------------------------------------------- enumeration
